@@ -33,6 +33,8 @@ static int last_runner;          /* process that ran during the current event, -
 static uint64_t ev_seq;          /* W.seq when the current event began */
 static int64_t prio_ref[MAXP];   /* priorities at the latest of {event start, pool-preempt call in this event} */
 
+static uint64_t evalcount[MAXP];   /* C13: predicate evaluations per process */
+
 /* C14 candidates */
 static struct { bool valid; double v; } rec_cand[5][4];
 
@@ -59,6 +61,7 @@ static int snapshot_guard(int g, gent *out)
 void mon_reset(void)
 {
     npend = 0; last_runner = -1;
+    memset(evalcount, 0, sizeof evalcount);
     memset(ngbefore, 0, sizeof ngbefore);
     memset(cond_observes, 0, sizeof cond_observes);
     memset(rec_cand, 0, sizeof rec_cand);
@@ -406,6 +409,7 @@ void mon_pred_eval(int pid, const struct cmb_process *prc, bool result)
     proc *pr = &PR[pid];
     if (prc != pr->pp) viol("C13", "predicate-wrong-process", "predicate of process %d evaluated with another process pointer", pid);
     if (result) { pr->cond_true_seen = true; pr->cond_true_time = tnow(); }
+    evalcount[pid]++;
     TR3("pred", pid, result, in_explicit);
     if (in_explicit) for (int i = 0; i < expl_n; i++) if (expl_pid[i] == pid) { expl_evals[i]++; expl_res[i] = result; }
     if (!in_explicit) PROBE("cond.forwarded_evaluation");
@@ -433,6 +437,35 @@ void mon_explicit_signal_end(int c)
         if (!expl_res[i] && !still) viol("C13", "unsatisfied-waiter-woken", "waiter %d had a false predicate at the signal but was taken off the queue", pr->id);
         if (expl_res[i] && i > 0) PROBE("probe.cond_true_nonhead_explicit");
     }
+}
+
+/* a step that is certain to signal an observed waiting list (resource release, pool release): every waiter of every observing
+ * condition has to be evaluated during the call, and the satisfied ones taken off the queue */
+static int fw_n; static int fw_pid[MAXGENT]; static int fw_cond[MAXGENT]; static uint64_t fw_evals0[MAXGENT];
+void mon_forward_expected_begin(int cls, int idx)
+{
+    fw_n = 0;
+    int g = -1;
+    for (int k = 0; k < W.nguards; k++) if (W.guards[k].cls == cls && W.guards[k].idx == idx) g = k;
+    if (g < 0) return;
+    for (int c = 0; c < W.ncond; c++) {
+        if (!cond_observes[c][g]) continue;
+        gent tmp[MAXGENT];
+        int cg = -1;
+        for (int k = 0; k < W.nguards; k++) if (W.guards[k].cls == GC_COND && W.guards[k].idx == c) cg = k;
+        const int n = snapshot_guard(cg, tmp);
+        for (int i = 0; i < n && fw_n < MAXGENT; i++) if (tmp[i].pid >= 0) { fw_pid[fw_n] = tmp[i].pid; fw_cond[fw_n] = cg; fw_evals0[fw_n] = evalcount[tmp[i].pid]; fw_n++; }
+    }
+}
+void mon_forward_expected_end(void)
+{
+    for (int i = 0; i < fw_n; i++) {
+        const proc *pr = &PR[fw_pid[i]];
+        if (evalcount[pr->id] == fw_evals0[i])
+            viol("C13", "forwarded-signal-missing", "the observed waiting list was signalled by a release but the predicate of waiter %d of the observing condition was not evaluated", pr->id);
+        else PROBE("c13.forwarded_signal_reached_waiter");
+    }
+    fw_n = 0;
 }
 
 /* ------------------------------------------------------------------ C09 body entry */
@@ -632,6 +665,17 @@ void mon_after_event(void)
                 if (gbefore[g][b2].prio != gbefore[g][b].prio) PROBE("c06.grant_among_mixed_priorities");
             }
         }
+        /* "in order of the time at which they started waiting": a waiter that stays in the list without running keeps its entry
+         * time (a priority change must not touch it), and whoever enters the list does so with the current time */
+        for (int a = 0; a < na; a++) {
+            if (after[a].pid < 0) continue;
+            int b = -1;
+            for (int k = 0; k < ngbefore[g]; k++) if (gbefore[g][k].pid == after[a].pid) b = k;
+            if (b >= 0 && !PR[after[a].pid].ran_this_event && after[a].etime != gbefore[g][b].etime)
+                viol("C06", "entry-time-changed", "process %d kept waiting in a %s list but its waiting-since time changed from %g to %g", after[a].pid, gcname(W.guards[g].cls), gbefore[g][b].etime, after[a].etime);
+            if (b < 0 && after[a].etime != now)
+                viol("C06", "entry-time-wrong", "process %d entered a %s list at t=%g with waiting-since time %g", after[a].pid, gcname(W.guards[g].cls), now, after[a].etime);
+        }
         /* the waiting list's sort key must follow the waiter's current priority */
         for (int a = 0; a < na; a++)
             if (after[a].pid >= 0 && after[a].prio != PR[after[a].pid].pp->priority)
@@ -645,8 +689,9 @@ void mon_after_event(void)
     for (int i = 0; i < W.np; i++) if (!PR[i].finished) fold_buffer(&PR[i]);
     for (int b = 0; b < W.nbuf; b++) {
         const uint64_t lvl = cmb_buffer_level(W.buf[b]);
-        if (lvl != W.buf_put[b] - W.buf_got[b])
-            viol("C11", "level-conservation", "buffer %d: level %" PRIu64 " but put %" PRIu64 " minus got %" PRIu64 " (t=%g)", b, lvl, W.buf_put[b], W.buf_got[b], now);
+        if (W.buf_got[b] > W.buf_put[b] || (unsigned __int128)lvl != W.buf_put[b] - W.buf_got[b])
+            viol("C11", "level-conservation", "buffer %d: level %" PRIu64 " but put (low 64 bits) %" PRIu64 " minus got %" PRIu64 ", exact difference %s%" PRIu64 " (t=%g)", b, lvl,
+                 (uint64_t)W.buf_put[b], (uint64_t)W.buf_got[b], (W.buf_put[b] - W.buf_got[b]) >> 64 ? ">= 2^64 + " : "", (uint64_t)(W.buf_put[b] - W.buf_got[b]), now);
         if (lvl > W.bufcap[b]) viol("C11", "over-capacity", "buffer %d: level %" PRIu64 " above capacity %" PRIu64, b, lvl, W.bufcap[b]);
         if (cmb_buffer_space(W.buf[b]) != W.bufcap[b] - lvl) viol("C11", "space-mismatch", "buffer %d: space %" PRIu64 " with level %" PRIu64, b, cmb_buffer_space(W.buf[b]), lvl);
     }
@@ -687,6 +732,10 @@ void mon_after_event(void)
         if (cmb_process_exit_value(pr->pp) != pr->exitv) viol("C09", "exit-value", "process %d exit value %p, expected %p", i, cmb_process_exit_value(pr->pp), pr->exitv);
         for (int g = 0; g < W.nguards; g++) if (in_guard(g, pr)) viol("C09", "still-in-waiting-list", "ended process %d is still in the waiting list of a %s", i, gcname(W.guards[g].cls));
         if (!cmi_slist_is_empty(&pr->pp->resources)) viol("C09", "holdings-not-released", "ended process %d still has entries in its own list of holdings", i);
+        if (!pr->start_pending) {
+            const uint64_t n = cmb_event_pattern_count(CMB_ANY_ACTION, pr->pp, CMB_ANY_OBJECT);
+            if (n != 0) viol("C09", "event-pending-for-ended-process", "%" PRIu64 " event(s) addressed to process %d are still scheduled right after the event in which it ended (t=%g)", n, i, now);
+        }
     }
 }
 
